@@ -13,8 +13,11 @@ from . import common
 from .common import cnat, cbool, clist
 
 ROLES = ["Ident", "ModelInfo", "Graph", "SearchJson", "ModelJson", "Metadata", "Log", "StartTime", "Time",
-         "Dill", "DillTmp", "Summary", "SamplesInfo", "SamplesCsv", "Results", "SearchSummary", "Marker"]
-TAGGED = ("Summary", "SamplesCsv", "Dill", "DillTmp")
+         "Dill", "DillTmp", "Summary", "SamplesInfo", "SamplesCsv", "Results", "SearchSummary", "Marker",
+         "SearchJsonTmp", "ModelJsonTmp", "SummaryTmp", "SamplesInfoTmp"]
+JSON_TMP = {"SearchJsonTmp>SearchJson": "SearchJson", "ModelJsonTmp>ModelJson": "ModelJson",
+            "SummaryTmp>Summary": "Summary", "SamplesInfoTmp>SamplesInfo": "SamplesInfo"}
+TAGGED = ("Summary", "SamplesCsv", "Dill", "DillTmp", "SummaryTmp")
 EXC = {"SearchException": "SearchExc", "BadZipFile": "BadZip", "KeyError": "KeyErr", "EOFError": "EOFErr", "UnpicklingError": "Unpickling",
        "ValueError": "ValueErr", "JSONDecodeError": "JSONDecode", "FileNotFoundError": "FileNotFound"}
 WRITE_KINDS = ("W", "A", "ZW", "ZTW")
@@ -85,13 +88,15 @@ def detect_code(probes, extra):
     fx_dill     -- search_internal.dill is written through search_internal.dill.tmp
     fx_resume   -- an LBFGS fit killed just before `.completed` resumes normally
     fx_timer    -- a fit killed while creating `.start_time` resumes normally
+    fx_json     -- samples_summary.json is written through samples_summary.json.tmp
     fx_chk      -- with check_likelihood_function, an LBFGS fit killed just before `.completed` does not fail the sanity check"""
     fx_zip = any(ev == ["MV", "ZipTmp>Zip"] for c, r in probes for run in r["runs"] for ev in run["trace"])
     fx_dill = any(ev == ["MV", "DillTmp>Dill"] for c, r in probes for run in r["runs"] for ev in run["trace"])
     fx_resume = extra[0]["runs"][1]["outcome"] == "ok"
     fx_timer = extra[1]["runs"][1]["outcome"] == "ok"
     fx_chk = extra[2]["runs"][1]["outcome"] != "exc:SearchException"
-    return {"fx_zip": fx_zip, "fx_resume": fx_resume, "fx_timer": fx_timer, "fx_dill": fx_dill, "fx_chk": fx_chk}
+    fx_json = any(ev == ["MV", "SummaryTmp>Summary"] for c, r in probes for run in r["runs"] for ev in run["trace"])
+    return {"fx_zip": fx_zip, "fx_resume": fx_resume, "fx_timer": fx_timer, "fx_dill": fx_dill, "fx_chk": fx_chk, "fx_json": fx_json}
 
 
 def gen_cases(ctx, configs, probes):
@@ -129,14 +134,15 @@ def gen_cases(ctx, configs, probes):
     chk_keys = [k for k in keys if k.endswith("chk1")]
     for k in rng.sample(chk_keys, min(len(chk_keys), 6 if thorough else 2)):
         c, _ = by_key[k]
+        srole = "Summary" if any(pt[0] == "W" and pt[1] == "Summary" for pt in vocab[k][0]) else "SummaryTmp"
         for occ in (0, 1):
             for v in ("empty", "half"):
-                cases.append(history(c, [crash(("W", "Summary", occ), v), FULL, FULL]))
+                cases.append(history(c, [crash(("W", srole, occ), v), FULL, FULL]))
     # (1b) DatabasePaths: re-run of a completed fit through a database session (oracle only, not modelled)
     for u in (1, 2):
         cases.append(history({"search": "lbfgs", "updates": u, "remove_files": 1, "csv": 0, "keep_internal": 1, "chk": 0, "db": 1}, [FULL, FULL, FULL]))
     # (2) random multi-crash histories over every configuration
-    n_multi = 700 if thorough else 90
+    n_multi = 700 if thorough else 60
     for i in range(n_multi):
         k = rng.choice(keys)
         c, _ = by_key[k]
@@ -336,7 +342,7 @@ def oracle(case, res):
 # ---------------------------------------------------------------------------
 
 def c_code(flags):
-    return "(mkcode %s %s %s %s %s)" % tuple(cbool(flags[k]) for k in ("fx_zip", "fx_resume", "fx_timer", "fx_dill", "fx_chk"))
+    return "(mkcode %s %s %s %s %s %s)" % tuple(cbool(flags[k]) for k in ("fx_zip", "fx_resume", "fx_timer", "fx_dill", "fx_chk", "fx_json"))
 
 
 def c_cfg(c):
@@ -364,6 +370,8 @@ def c_event(ev):
         return "EZMV"
     if kind == "MV" and role == "DillTmp>Dill":
         return "EDMV"
+    if kind == "MV" and role in JSON_TMP:
+        return "EJMV %s" % JSON_TMP[role]
     raise Unprintable("event %s on %s" % (kind, role))
 
 
